@@ -1,4 +1,6 @@
 import Propka.Model.Pipeline
+import Propka.Model.Program
+import Propka.Model.PdbDriver
 import Propka.Model.ScoringDriver
 import Propka.Model.GroupsDriver
 import Propka.Gen.Bonds
@@ -97,6 +99,20 @@ def handle (args : List String) : String :=
     | none => "bad-op"
     | some none => "valueerror"
     | some (some r) => showPrep r ++ "#" ++ scoreOf rp r
+  | ["pdb", rp, pa, to, keep, chains, ign, file] =>
+    -- the whole program on a PDB text: `<name>@<atoms>#<groups>#<records>` per conformation, `&`-separated
+    let lines := if file == "-" then [] else (file.splitOn ",").map (fun h => unhex h.toList)
+    let po : Pdb.Opts := { ignore := if ign == "default" then Gen.Cfg.f_ignore_residues else Pdb.csvHex ign,
+                           keepProtons := keep == "1", chains := Pdb.csvHex chains }
+    let removePen := if rp == "-" then Gen.Scoring.removePenalised else rp == "1"
+    match shipped removePen with
+    | none => "bad-params"
+    | some sp =>
+      match Program.run shippedPP sp (fun m d => decToFloat (m, d)) po (optsOf pa to) lines with
+      | .error e => "err:" ++ Pdb.showErr e
+      | .ok confs => "&".intercalate (confs.map fun c => match c.2 with
+          | none => c.1 ++ "@valueerror"
+          | some (r, out) => c.1 ++ "@" ++ showPrep r ++ "#" ++ (if out.isEmpty then "-" else ";".intercalate (out.map showOut)))
   | _ => "bad-op"
 
 end Propka.Pipe
